@@ -239,9 +239,11 @@ def check_C10(ctx):
 
 def check_C11(ctx):
     g = ctx.bin(GRID)
-    jobs = [Job(g, "TestC11", name="C11:" + mode, timeout=1200, env={"VERIF_PARAM_MODE": mode, "GOMAXPROCS": "4"}) for mode in ("zstd", "uncompressed")]
+    shards = 8 if ctx.thorough() else 3
+    jobs = [Job(g, "TestC11", name="C11:%s#%d" % (mode, sh), timeout=3600, env={"VERIF_PARAM_MODE": mode, "GOMAXPROCS": "4", "VERIF_SHARD": "%d/%d" % (sh, shards)})
+            for mode in ("zstd", "uncompressed") for sh in range(shards)]
     return dict(level="exploration", jobs=jobs,
-                rule="message grammar: a fully populated valid ActionResult and four further valid shapes, plus one invalid field of each kind (empty/absolute path, empty target, nil digest, empty element, negative size, short/upper-case/non-hex/empty hash) at every position where it can occur (output files, output directories, the three symlink lists, stdout/stderr digests) x 5 encodings (gRPC, HTTP protobuf, HTTP JSON, each also zstd-wrapped); validation disabled; all 8 inline-request combinations x stdout size {small, exactly the 3 MiB budget, over it}; alternating overwrites through all encodings with invalid uploads in between; execution metadata: every subset of {worker, queued/completed timestamps, virtual duration, auxiliary metadata}; each optional part of the full message dropped alone; non-trivial = distinct (message, encoding) cells accepted or rejected with the post-conditions checked",
+                rule="message grammar: a fully populated valid ActionResult and four further valid shapes, plus one invalid field of each kind (empty/absolute path, empty target, nil digest, empty element, negative size, short/upper-case/non-hex/empty hash) at every position where it can occur (output files, output directories, the three symlink lists, stdout/stderr digests) x 5 encodings (gRPC, HTTP protobuf, HTTP JSON, each also zstd-wrapped); validation disabled; all 8 inline-request combinations x stdout size {small, exactly the 3 MiB budget, over it}; alternating overwrites through all encodings with invalid uploads in between; execution metadata: every subset of {worker, queued/completed timestamps, virtual duration, auxiliary metadata}; each optional part of the full message dropped alone; two deviations at once: ordered pairs of variants (quick: a valid shape with an invalid one, gRPC and HTTP protobuf; thorough: all ordered pairs, all five encodings), expected verdict from the harness's own reference validator, which is first checked against every single variant's label; non-trivial = distinct (message, encoding) cells accepted or rejected with the post-conditions checked",
                 assumptions=["nil elements of repeated fields cannot be put on the wire by the protobuf runtime; empty elements stand in for them",
                              "an empty output-directory path is valid (REAPI: the working directory itself)"])
 
@@ -341,7 +343,7 @@ def check_C17(ctx):
     th = ctx.thorough()
     jobs = e2lru_jobs(ctx, "C17", 6 if th else 4, 1500 if th else 100, hard_extras=(-1, 0, 1, 2))
     scen = ["S17-hardlimit-unset", "S17-hardlimit-max", "S17-hardlimit-max+1blk", "S17-hardlimit-max+2blk"] if th else ["S17-hardlimit-unset", "S17-hardlimit-max", "S17-hardlimit-max+1blk"]
-    jobs += e1_jobs(ctx, "C17", scen, 3 if th else 2, 8 if th else 3, 1500 if th else 150)
+    jobs += e1_jobs(ctx, "C17", scen, 3 if th else 2, 8 if th else 6, 1500 if th else 400)
     jobs.append(Job(ctx.bin(GRID), "TestC17", name="C17:status-mapping", timeout=600))
     return dict(level="model_checking", jobs=jobs,
                 rule="(1) explicit-state BFS on the real SizedLRU with hard limit in {unset, max, max+1, max+2 blocks}: admission <=> size<=max and reserved+size<=max and accounted+backlog+size<=limit, refused => nothing changed; (2) all <=2/3-preemption schedules of two uploads + an existence check into a full cache with the background remover (and its backlog counter) under scheduler control, so every amount of deletion lag occurs; (3) every write path against a full cache at server level for the 507 / RESOURCE_EXHAUSTED mapping",
